@@ -47,6 +47,14 @@ def build(flavour="dbg", targets=("h1",), quiet=True):
     compiler output when the tree does not compile."""
     bd = build_dir(flavour)
     os.makedirs(bd, exist_ok=True)
+    # checks may run side by side: one builder per build directory at a time
+    import fcntl
+    with open(os.path.join(bd, ".lock"), "w") as lk:
+        fcntl.flock(lk, fcntl.LOCK_EX)
+        return _build_locked(bd, flavour, targets, quiet)
+
+
+def _build_locked(bd, flavour, targets, quiet):
     src = os.path.join(REPO, "src")
     flags = FLAVOURS[flavour]
     cxx = "g++" if flavour == "dbg" else "clang++"
